@@ -290,6 +290,17 @@ def handleCsvWrite (toks : List String) : String :=
     pure (hex (String.join (rows.map csvWriteRow)))
   res.getD "bad-csv"
 
+/-- `csvtable <ncols> <ncells> <hex name>* (<hex cell>* per column)`: the table `EEMSWrite` writes for these results -/
+def handleCsvTable (toks : List String) : String :=
+  let res : Option String := do
+    let (nc, r) ← pNat toks
+    let (n, r) ← pNat r
+    let (names, r) ← pMany pHex nc r
+    let (cells, _) ← pMany pHex (nc * n) r
+    let cols := (List.range nc).map fun j => (cells.drop (j * n)).take n
+    pure (hex (csvWriteTable names cols))
+  res.getD "bad-csv"
+
 /-- `ncread <arr|-> <type> <missing rat|->` -/
 def handleNcRead (toks : List String) : String :=
   match toks with
@@ -379,6 +390,7 @@ def handle (line : String) : String :=
   | "csvread" :: rest => handleCsvRead rest
   | "csvrows" :: rest => handleCsvRows rest
   | "csvwrite" :: rest => handleCsvWrite rest
+  | "csvtable" :: rest => handleCsvTable rest
   | "cli" :: rest => handleCli rest
   | "ping" :: _ => "pong"
   | _ => "bad-op"
